@@ -848,6 +848,17 @@ struct Brent : Bracket_Method
 	}
 };
 
+#ifdef LIBPHYSICA_VERIF
+// Verification hook (off unless LIBPHYSICA_VERIF is defined): runs the file-local bracketing phase of Find_Minimum on its own and
+// returns the triple it ends with as {ax, bx, cx, fa, fb, fc}.
+std::vector<double> Verif_Bracket(std::function<double(double)> func, double a, double b)
+{
+	Bracket_Method bracket;
+	bracket.Bracket(a, b, func);
+	return {bracket.ax, bracket.bx, bracket.cx, bracket.fa, bracket.fb, bracket.fc};
+}
+#endif
+
 double Find_Maximum(std::function<double(double)> func, double xLeft, double xRight, double tol)
 {
 	auto minus_func = [&func](double x) {
